@@ -7,9 +7,11 @@ from props import common
 
 ID = "C12"
 LEVEL = "exploration"
-SIDECARS = ["contracts.flow"]
-TARGETS = ["FlowGraph.__build_loop_nest"]
-TECHNIQUE = ("contract on FlowGraph.__build_loop_nest (metrics nodes bracket the loop chain, SMT) + structural lemmas on "
+SIDECARS = ["contracts.flow", "contracts.traces"]
+TARGETS = ["FlowGraph.__build_loop_nest", "Collector.set_collecting", "Collector.__get_trace"]
+TECHNIQUE = ("contracts on FlowGraph.__build_loop_nest (metrics nodes bracket the loop chain) and on the two spellings of a trace "
+             "name - Collector.set_collecting (registration) and Collector.__get_trace (consumption) against one label "
+             "specification (SMT) + structural lemmas on "
              "Collector.start/end and the intersector naming sites + bounded static cross-reference of the emitted text")
 EXPLANATION = (
     "Proved: __build_loop_nest adds StartLoop -> MetricsNode(Start) -> first chain node and last EndLoop -> "
@@ -17,7 +19,12 @@ EXPLANATION = (
     "collection is opened before the first loop and closed after the last one, once, because Collector.start / end "
     "each emit exactly one beginCollect / endCollect and __trans_nodes translates each node once (structural). "
     "Intersector models are created, fed and queried under the variable <component>_<rank> built by the same "
-    "expression at all three sites (structural). Whether every consumed trace FILE NAME was registered is decided "
+    "expression at all three sites (structural). The two spellings of a trace name agree on its FORMAT (SMT): "
+    "Collector.set_collecting registers exactly one Metrics.trace(<rank>, type_=label_of(tensor, rank, type, is_read), "
+    "consumable=...) as its last statement, and Collector.__get_trace names <prefix>-<rank>-<that same label>.csv "
+    "(plus _payload and one Traffic.filterTrace over that file and <prefix>-<rank>-iter.csv exactly when a lazy payload "
+    "binding is neither the iteration nor a get_payload trace) - both proved against one specification function. "
+    "Whether a registration with matching ARGUMENTS is emitted for every consumed name is decided "
     "by a BOUNDED static cross-reference over the emitted text of the accelerator specifications found in the "
     "repository (registration and consumption meet only through strings computed from different views of Metrics "
     "across several hundred lines of dictionary plumbing: not brought under contract).")
